@@ -135,6 +135,17 @@ def layouts(max_depth: int = 3):
                 d["py.typed"] = ""
             else:
                 d["README.txt"] = "t"
+        if d.get("__init__.py") in ("x", "") and draw(st.integers(0, 2)) == 0:
+            # the package's own body defines / imports names, some of them equal to its sub-modules and sub-packages
+            # (CPython's finders do not care; the sub-module must still be loaded at that dotted path)
+            subs = sorted({k.split(".", 1)[0] for k, v in d.items() if (isinstance(v, dict) and k != "__pycache__") or k.endswith(".py")} - {"__init__"})
+            subs = [n for n in subs if n.isidentifier() and n != "class"]
+            chosen = draw(st.lists(st.sampled_from(subs + ["v", "w"]), unique=True, min_size=1, max_size=3))
+            body = ["x = 1"]
+            for n in chosen:
+                form = draw(st.sampled_from(["attr", "attr", "func", "class", "import", "from"]))
+                body.append({"attr": f"{n} = None", "func": f"def {n}(): ...", "class": f"class {n}: ...", "import": f"import os as {n}", "from": f"from os import path as {n}"}[form])
+            d["__init__.py"] = "\n".join(body) + "\n"
         real_dirs = [k for k, v in d.items() if isinstance(v, dict) and k != "__pycache__"]
         if real_dirs and draw(st.integers(0, 3)) == 0:
             # a directory symlink to a sibling sub-package / namespace directory: one directory under two names
@@ -554,6 +565,35 @@ def steer_kf(layout: dict) -> tuple[dict, int]:
     return layout, len(hits)
 
 
+def alias_named_like_initless_dir(layout: dict) -> list[tuple[int, tuple, str]]:
+    """(tree index, relative directory, name) for every `__init__.py` body that imports a name (`import os as N`,
+    `from os import path as N`) equal to a sub-directory of that package which has no `__init__.py`."""
+    out = []
+    for i, tree in enumerate(all_trees(layout)):
+        if not isinstance(tree.get(TOP), dict):
+            continue
+        for rel, d in _walk_dirs(tree[TOP], (TOP,)):
+            body = d.get("__init__.py")
+            if not isinstance(body, str) or " as " not in body:
+                continue
+            for line in body.splitlines():
+                if line.startswith(("import ", "from ")) and " as " in line:
+                    name = line.rsplit(" as ", 1)[1].strip()
+                    sub = _follow(d, d.get(name))
+                    if sub is not None and "__init__.py" not in sub:
+                        out.append((i, rel, name))
+    return out
+
+
+def steer_alias_named_like_initless_dir(layout: dict) -> tuple[dict, int]:
+    hits = alias_named_like_initless_dir(layout)
+    trees = all_trees(layout)
+    for i, rel, name in hits:
+        d = _subdir(trees[i], rel)
+        d["__init__.py"] = "\n".join(f"{name} = None" if ln.endswith(f" as {name}") else ln for ln in d["__init__.py"].splitlines()) + "\n"
+    return layout, len(hits)
+
+
 def steer_pyi_only(layout: dict) -> tuple[dict, int]:
     """Give every colliding `__init__.pyi`-only directory an `__init__.py` (returns the new layout and how many)."""
     hits = pyi_only_collisions(layout)
@@ -633,6 +673,13 @@ def features(layout: dict) -> set[str]:
             if not inside_top:
                 continue
             regular = "__init__.py" in sub and sub["__init__.py"] not in PKG_STYLE
+            body = sub.get("__init__.py", "")
+            if isinstance(body, str) and "\n" in body and body not in CONTENT.values():
+                defined = {ln.split("(")[0].split(":")[0].split()[-1] if ln.startswith(("def ", "class ")) else ln.split(" = ")[0] if " = " in ln else ln.split()[-1] for ln in body.splitlines()[1:]}
+                if any(n in sub or f"{n}.py" in sub for n in defined):
+                    f.add("init-member-named-like-submodule")
+                else:
+                    f.add("init-defines-members")
             for name, node in sub.items():
                 stem = name.split(".", 1)[0]
                 if isinstance(node, str) and node.startswith(LINK):
